@@ -73,6 +73,41 @@ Proof.
   destruct o as [z|]; [|reflexivity]. unfold truthy_z. destruct (z =? 0) eqn:E; [reflexivity|]. rewrite E. reflexivity.
 Qed.
 
+Lemma split_slash_none s : forall cur, has_slash s = false -> split_slash s cur = [rev cur ++ s].
+Proof.
+  induction s as [|c r IH]; intros cur H; simpl.
+  - rewrite app_nil_r. reflexivity.
+  - assert (H' : (47 =? c)%N = false /\ has_slash r = false).
+    { unfold has_slash in *. change (existsb (N.eqb 47) (c :: r)) with ((47 =? c)%N || existsb (N.eqb 47) r) in H.
+      apply orb_false_elim in H. exact H. }
+    destruct H' as [H1 H2]. destruct (c =? 47)%N eqn:Ec.
+    + apply N.eqb_eq in Ec. subst c. discriminate.
+    + rewrite (IH (c :: cur) H2). simpl. rewrite <- app_assoc. reflexivity.
+Qed.
+Lemma parse_exp_none s : has_slash s = false -> parse_exp s = None.
+Proof. intros H. unfold parse_exp. rewrite (split_slash_none s [] H). reflexivity. Qed.
+Lemma exp_entries_none vinfos f :
+  existsb (fun vi => has_slash (vname vi)) vinfos = false -> exp_entries vinfos f = [].
+Proof.
+  intros H. unfold exp_entries.
+  assert (E : concat (map (fun vi => match parse_exp (dflt [] (vi_name vi)) with
+                                     | Some (d, fn, v) =>
+                                         if str_eqb d (if_domain f) && str_eqb fn (if_name f) && str_eqb [] (if_overload f)
+                                         then [(v, vi)] else []
+                                     | None => []
+                                     end) vinfos) = []).
+  { induction vinfos as [|vi r IH]; [reflexivity|]. simpl in H. apply orb_false_elim in H. destruct H as [H1 H2].
+    simpl. unfold vname in H1. rewrite (parse_exp_none _ H1). simpl. apply IH. exact H2. }
+  rewrite E. reflexivity.
+Qed.
+Lemma apply_exp_all_none vinfos fns :
+  existsb (fun vi => has_slash (vname vi)) vinfos = false -> mapM (apply_exp_fn vinfos) fns = Ok fns.
+Proof.
+  intros H. induction fns as [|f r IH]; [reflexivity|].
+  rewrite mapM_cons. unfold apply_exp_fn at 1. rewrite (exp_entries_none vinfos f H). cbn [res_bind].
+  rewrite IH. reflexivity.
+Qed.
+
 Section ModelRT.
   Variable m : ModelP.
   Hypothesis Hwf : wf_model m = true.
@@ -133,16 +168,16 @@ Section ModelRT.
                           fns (dict_of (m_meta m))
                           (map (fun c => (dflt [] (dc_name c), dflt 0 (dc_num c), dc_devices c)) (m_conf m)))).
     { unfold deser_model_fuel. fold irv.
-      assert (Hguard : (irv <? FUNCTION_VALUE_INFO_SUPPORTED_VERSION) && nonempty (m_funcs m)
-                       && existsb (fun vi => has_slash (dflt [] (vi_name vi))) (g_vinfo (m_graph m)) = false).
-      { unfold fvi in Hslash. destruct (FUNCTION_VALUE_INFO_SUPPORTED_VERSION <=? irv) eqn:E.
-        - apply Z.leb_le in E. assert (E2 : (irv <? FUNCTION_VALUE_INFO_SUPPORTED_VERSION) = false) by (apply Z.ltb_ge; exact E).
-          rewrite E2. reflexivity.
-        - simpl in Hslash. apply orb_prop in Hslash. destruct Hslash as [H|H]; apply negb_true_iff in H.
-          + rewrite H, andb_false_r. reflexivity.
-          + unfold vname in H. rewrite H, andb_false_r. reflexivity. }
-      rewrite Hguard, Hd. cbn [res_bind]. rewrite Hf1. cbn [res_bind].
-      rewrite (funcs_dict_nodup fns []); [reflexivity|]. simpl. rewrite Hf2. apply nodup_fid_NoDup. exact Hnd. }
+      rewrite Hd. cbn [res_bind]. rewrite Hf1. cbn [res_bind].
+      rewrite (funcs_dict_nodup fns []); [|simpl; rewrite Hf2; apply nodup_fid_NoDup; exact Hnd]. simpl app.
+      assert (Hexp : (if irv <? FUNCTION_VALUE_INFO_SUPPORTED_VERSION
+                      then mapM (apply_exp_fn (g_vinfo (m_graph m))) fns else Ok fns) = Ok fns).
+      { unfold fvi in Hslash. destruct (irv <? FUNCTION_VALUE_INFO_SUPPORTED_VERSION) eqn:E; [|reflexivity].
+        apply Z.ltb_lt in E. assert (E2 : (FUNCTION_VALUE_INFO_SUPPORTED_VERSION <=? irv) = false) by (apply Z.leb_gt; exact E).
+        rewrite E2 in Hslash. simpl in Hslash. apply orb_prop in Hslash. destruct Hslash as [H|H]; apply negb_true_iff in H.
+        - destruct (m_funcs m); [|discriminate]. inversion Hf1. reflexivity.
+        - apply apply_exp_all_none. exact H. }
+      rewrite Hexp. reflexivity. }
     eexists. split; [exact Hdm|].
     pose proof (deser_model_depth _ _ _ Hdm) as Himd.
     (* serialization with fuel S (S N), then transported to the fuel ser_model uses *)
